@@ -198,7 +198,11 @@ Qed.
 
 (** * From the Prop version to the executable check *)
 Lemma read_index_exact : forall t i, read_index t (N.of_nat (length t)) i = nth_error t (N.to_nat i).
-Proof. intros t i. unfold read_index. rewrite N.eqb_refl. reflexivity. Qed.
+Proof.
+  intros t i. unfold read_index. rewrite N.eqb_refl. cbn [andb].
+  destruct (i <? N.of_nat (length t)) eqn:E; [reflexivity |].
+  apply N.ltb_ge in E. symmetry. apply nth_error_None. lia.
+Qed.
 
 Lemma LI_lits_ok : forall t,
   (forall v, LI t v -> lits_ok_pv t (N.of_nat (length t)) v = true)
